@@ -185,6 +185,10 @@ def random_iface_spec(rng, table, lang, usertags=None, extra_events=0):
                 if i >= first_default:
                     d = rng.choice(["true", "false"]) if ty == "bool" and lang != "py" else (
                         rng.choice(["True", "False"]) if ty == "bool" else str(rng.randint(0, 9)))
+                    if lang == "cpp" and ty != "bool" and rng.random() < 0.12:
+                        # defaults that are only implicitly convertible to the member's type (a sentinel -1 for an unsigned member, a
+                        # floating literal for an integer member, a wide literal for a narrow member): valid with '=' initialisation
+                        d = rng.choice(["-1", "1.5e3", "70000", "'x'"])
                 mem.append(["m%d" % i, ty, d])
             structs.append([e, mem])
     used = set(sum(names(table), []))
